@@ -370,6 +370,191 @@ class FakePool:
         pass
 
 
+# ---------------------------------------------------------------------------------------------------------------
+class Deferred:
+    """Wrapper type of the application-defined runtime below: neither an awaitable nor a concurrent.futures.Future."""
+
+    def __init__(self):
+        self._done = False
+        self._value = None
+        self._error = None
+        self._callbacks = []
+
+    def done(self):
+        return self._done
+
+    def _settle(self, value, error):
+        if self._done:
+            raise RuntimeError("Deferred settled twice")
+        self._done, self._value, self._error = True, value, error
+        cbs, self._callbacks = self._callbacks, []
+        for cb in cbs:
+            cb(self)
+
+    def set_result(self, value):
+        self._settle(value, None)
+
+    def set_exception(self, error):
+        self._settle(None, error)
+
+    def exception(self):
+        return self._error
+
+    def result(self):
+        if not self._done:
+            raise RuntimeError("Deferred is pending")
+        if self._error is not None:
+            raise self._error
+        return self._value
+
+    def add_done_callback(self, cb):
+        if self._done:
+            cb(self)
+        else:
+            self._callbacks.append(cb)
+
+
+def _make_custom_runtime(plan, submitted):
+    """A Runtime written against the public abstract base class only (the documented extension point), semantically the thread
+    pool runtime with Deferred instead of Future: wrapped resolvers of deferred plan nodes are queued by node id and completed by
+    the replay in the order the specification chooses; callbacks run synchronously inside complete()."""
+    from py_gql.execution.runtime import Runtime
+
+    def is_d(v):
+        return isinstance(v, Deferred)
+
+    class DeferredRuntime(Runtime):
+        def __init__(self):
+            self.q = {}
+
+        def _run(self, d, fn, a, kw):
+            try:
+                r = fn(*a, **kw)
+            except BaseException as e:
+                d.set_exception(e)
+            else:
+                d.set_result(r)
+
+        def submit(self, fn, *a, **kw):
+            d = Deferred()
+            n = node_id(a[2])
+            submitted.append(n)
+            if plan["nodes"][n - 1]["mode"] == "sync":
+                self._run(d, fn, a, kw)
+            else:
+                self.q[n] = (d, fn, a, kw)
+            return d
+
+        def complete(self, n):
+            self._run(*self.q[n])
+
+        def pending(self):
+            return sorted(n for n, t in self.q.items() if not t[0].done())
+
+        def wrap_callable(self, func):
+            return lambda *a, **kw: self.submit(func, *a, **kw)
+
+        def ensure_wrapped(self, value):
+            if is_d(value):
+                return value
+            d = Deferred()
+            d.set_result(value)
+            return d
+
+        def map_value(self, value, then, else_=None):
+            def call(get):
+                try:
+                    return then(get())
+                except Exception as err:
+                    if else_ is not None and isinstance(err, else_[0]):
+                        return else_[1](err)
+                    raise
+            if not is_d(value):
+                return call(lambda: value)
+            out = Deferred()
+
+            def cb(d):
+                try:
+                    r = call(d.result)
+                except Exception as err:
+                    out.set_exception(err)
+                else:
+                    out.set_result(r)
+            value.add_done_callback(cb)
+            return out
+
+        def gather_values(self, values):
+            values = list(values)
+            waiting = [v for v in values if is_d(v)]
+            if not waiting:
+                return values
+            out = Deferred()
+            left = [len(waiting)]
+
+            def cb(d):
+                if out.done():
+                    return
+                if d.exception() is not None:
+                    out.set_exception(d.exception())
+                    return
+                left[0] -= 1
+                if not left[0]:
+                    out.set_result([v.result() if is_d(v) else v for v in values])
+            for w in waiting:
+                w.add_done_callback(cb)
+            return out
+
+        def unwrap_value(self, value):
+            if not is_d(value):
+                return value
+            out = Deferred()
+
+            def cb(d):
+                if d.exception() is not None:
+                    out.set_exception(d.exception())
+                elif is_d(d.result()):
+                    d.result().add_done_callback(cb)
+                else:
+                    out.set_result(d.result())
+            value.add_done_callback(cb)
+            return out
+    return DeferredRuntime()
+
+
+def run_custom(plan, beh, rec):
+    """Generic executor on an application-defined runtime (public Runtime ABC, own wrapper type)."""
+    from py_gql import process_graphql_query
+    schema, query, kids = build(plan)
+    submitted = []
+    rt = _make_custom_runtime(plan, submitted)
+    method_style = (plan.get("variant") or {}).get("style") == "method"
+
+    def make(n):
+        def res(root, ctx, info):
+            if rec:
+                rec.emit(e="res", p="/".join(map(str, info.path)))
+            return behave(plan, n)
+        if method_style and plan["nodes"][n - 1]["parent"] == 0:
+            def meth(root, ctx, info):
+                return info.runtime.submit(res, root, ctx, info)
+            return meth
+        return res
+    rootv = set_resolvers(schema, plan, kids, make)
+    kw = {}
+    if rec:
+        kw = {"instrumentation": rec.instrumentation(), "middlewares": rec.middlewares()}
+    try:
+        fut = process_graphql_query(schema, query, runtime=rt, root=rootv, **kw)
+    except Crash as e:
+        fut = Deferred()
+        fut.set_exception(e)
+    except Exception as e:
+        return [("custom-runtime/raises/%s" % type(e).__name__, repr(e))], None
+    if not isinstance(fut, Deferred):
+        return [("custom-runtime/result-not-wrapped", repr(type(fut)))], None
+    return _follow(plan, beh, fut, rt.pending, rt.complete, lambda: None, "custom-runtime", lambda: submitted), fut
+
+
 class Divergence(Exception):
     def __init__(self, key, detail):
         self.key = key
